@@ -10,7 +10,7 @@
     ChangeKey/DeleteIndex/PeekIndex/ContainsIndex succeed iff the index is held, Peek/Delete
     return a held index whose current key is extremal (any such index), ContainsKey /
     ContainsValue are existential over the held entries, Size is the number of held indices. *)
-From Algo.C05 Require Import Model Spec ProofsRange.
+From Algo.C05 Require Import Model Spec ProofsRange Proofs.
 Open Scope Z_scope.
 
 Definition simulates (cmp : Z -> Z -> Z) (i : impl) : Prop :=
@@ -23,6 +23,14 @@ Definition simulates (cmp : Z -> Z -> Z) (i : impl) : Prop :=
 Definition C05_ibin_full : Prop := forall cmp, TotalPreorder cmp -> simulates cmp IBin.
 Definition C05_ibinom_full : Prop := forall cmp, TotalPreorder cmp -> simulates cmp IBinom.
 Definition C05_ifib_full : Prop := forall cmp, TotalOrder cmp -> simulates cmp IFib.
+
+(** Indexed binary heap: the full statement, for every comparator of a total preorder, every
+    capacity and every history (invalid indices, key increases and decreases included): no
+    operation panics or hangs and every result is the one the index map allows.  Invariants
+    behind it (Algo.C05.ProofsBin.Inv): pos/heap mutually inverse on 1..n, kvs[i] present iff
+    pos[i] <> -1, n = number of held indices, heap order. *)
+Theorem C05_ibin_simulates : C05_ibin_full.
+Proof. exact ibin_simulates. Qed.
 
 (** Out-of-range indices are rejected with a false result rather than a crash, in every state
     of every implementation (reachable or not), leaving the state unchanged. *)
@@ -47,4 +55,5 @@ Example C05_example :
     [r; r; r].
 Proof. vm_compute. reflexivity. Qed.
 
+Print Assumptions C05_ibin_simulates.
 Print Assumptions C05_out_of_range_rejected.
